@@ -16,6 +16,8 @@
 //   ReconsiderBlock re-reads it from disk; run in a fork). ReadBlockUndo must fail on every change of the
 //   payload/checksum bytes and never return different data.
 #include <vx/vx.h>
+#include <fcntl.h>
+#include <sys/resource.h>
 #include <kits/chainkit.h>
 #include <kits/forkpool.h>
 
@@ -467,14 +469,41 @@ static std::string FaultStr(const std::vector<Rec>& recs, const Fault& f)
     const Rec& r = recs[f.rec];
     return strprintf("%s %s rel=%u%s", r.name, f.kind == 'f' ? "flip" : f.kind == 't' ? "truncate-at" : "zero-from", f.off - r.start, f.kind == 'f' ? strprintf(" mask=%02x", f.mask) : "");
 }
-static Bytes Mutate(const Bytes& pristine, const Rec& r, const Fault& f)
-{
-    Bytes b = pristine;
-    if (f.kind == 'f') b[f.off] ^= f.mask;
-    else if (f.kind == 't') b.resize(f.off);
-    else for (unsigned i = f.off; i < r.end; i++) b[i] = 0;
-    return b;
-}
+// in-place fault injection on an open file (cheap: the rev files are 1 MiB of preallocation)
+struct FileMut {
+    int fd{-1};
+    const Bytes* pristine{nullptr};
+    size_t data_end{0}; // one past the last non-zero byte of the pristine file
+    void Open(const fs::path& p, const Bytes& pr)
+    {
+        fd = ::open(fs::PathToString(p).c_str(), O_RDWR);
+        if (fd < 0) throw std::runtime_error("C17: cannot open " + fs::PathToString(p));
+        pristine = &pr;
+        data_end = pr.size();
+        while (data_end > 0 && pr[data_end - 1] == 0) data_end--;
+    }
+    void Close() { if (fd >= 0) ::close(fd); fd = -1; }
+    void PW(const unsigned char* p, size_t n, size_t off) { if (n && ::pwrite(fd, p, n, (off_t)off) != (ssize_t)n) throw std::runtime_error("C17: pwrite failed"); }
+    void Apply(const Rec& r, const Fault& f)
+    {
+        if (f.kind == 'f') { unsigned char c = (*pristine)[f.off] ^ f.mask; PW(&c, 1, f.off); }
+        else if (f.kind == 't') { if (::ftruncate(fd, f.off) != 0) throw std::runtime_error("C17: ftruncate failed"); }
+        else { Bytes z(r.end - f.off, 0); PW(z.data(), z.size(), f.off); }
+    }
+    void Restore(const Rec& r, const Fault& f)
+    {
+        if (f.kind == 'f') PW(pristine->data() + f.off, 1, f.off);
+        else if (f.kind == 't') {
+            if (::ftruncate(fd, (off_t)pristine->size()) != 0) throw std::runtime_error("C17: ftruncate failed");
+            if (data_end > f.off) PW(pristine->data() + f.off, data_end - f.off, f.off);
+        } else PW(pristine->data() + f.off, r.end - f.off, f.off);
+    }
+    void Heal()
+    {
+        if (::ftruncate(fd, (off_t)pristine->size()) != 0) throw std::runtime_error("C17: ftruncate failed");
+        PW(pristine->data(), data_end, 0);
+    }
+};
 static const char* BlockRegion(unsigned rel, unsigned n)
 {
     (void)n;
@@ -601,8 +630,10 @@ struct PartB {
             const Rec& r = recs[ri];
             const Bytes& pristine = r.undo ? rev_pristine[r.file] : blk_pristine[r.file];
             const fs::path path = File(r.undo, r.file);
+            FileMut fm;
+            fm.Open(path, pristine);
             for (const Fault& f : FaultsOf(ri)) {
-                WriteFile(path, Mutate(pristine, r, f));
+                fm.Apply(r, f);
                 E.evaluations++;
                 const unsigned rel = f.off - r.start;
                 const std::string id = strprintf("%s:%c:%u:%02x:x%d", r.name, f.kind, rel, f.mask, (int)use_xor);
@@ -641,8 +672,11 @@ struct PartB {
                     }
                     cls[strprintf("undo %s %c %s", region, f.kind, outcome)]++;
                 }
+                fm.Restore(r, f);
             }
-            WriteFile(path, pristine);
+            fm.Heal();
+            fm.Close();
+            if (ReadFile(path) != pristine) throw std::runtime_error("C17: file not restored");
         }
     }
 
@@ -650,14 +684,20 @@ struct PartB {
     void ConnectJob(const Fault& f, fp::Out& out, const fs::path& scratch)
     {
         const Rec& r = recs[f.rec];
-        fs::path priv = scratch / fs::u8path(strprintf("c%d", (int)getpid()));
-        n.RepointBlocksDir(priv);
+        (void)scratch;
+        const bool tr = getenv("C17_TRACE");
+        if (tr) fprintf(stderr, "[%d] job start %.3f\n", (int)getpid(), vx::elapsed());
+        // the worker owns a private copy of the block files (made in on_worker_start); start from intact bytes
+        FileMut fm;
+        fm.Open(File(false, r.file), blk_pristine[r.file]);
+        fm.Heal();
         if (!n.Invalidate(x1) || n.tip()->GetBlockHash() != L.blocks.at(x1).prev) {
             out.violation("B-harness-invalidate", "could not disconnect X1/X2 with intact files", FaultStr(recs, f));
-            fs::remove_all(priv);
             return;
         }
-        WriteFile(priv / fs::u8path(strprintf("blk%05u.dat", r.file)), Mutate(blk_pristine[r.file], r, f));
+        fm.Apply(r, f);
+        fm.Close();
+        if (tr) { timespec ts; clock_gettime(CLOCK_PROCESS_CPUTIME_ID, &ts); struct rusage ru; getrusage(RUSAGE_SELF, &ru); fprintf(stderr, "[%d] invalidated %.3f cpu=%.3f minflt=%ld utime=%.3f stime=%.3f\n", (int)getpid(), vx::elapsed(), ts.tv_sec + ts.tv_nsec * 1e-9, ru.ru_minflt, ru.ru_utime.tv_sec + ru.ru_utime.tv_usec * 1e-6, ru.ru_stime.tv_sec + ru.ru_stime.tv_usec * 1e-6); }
         n.Reconsider(x1);
         bool active;
         int h;
@@ -690,7 +730,7 @@ struct PartB {
         }
         out.count("B_connect_tests");
         out.count(strprintf("B_tip_after_%d", h));
-        fs::remove_all(priv);
+        if (tr) fprintf(stderr, "[%d] job end %.3f\n", (int)getpid(), vx::elapsed());
     }
 };
 
@@ -729,6 +769,26 @@ int main(int argc, char** argv)
             fp::Pool pool;
             pool.isolate_jobs = true;
             pool.workers = 8;
+            pool.on_worker_start = [&](unsigned) { node.RepointBlocksDir(scratch / fs::u8path(strprintf("c%d", (int)getpid()))); };
+            pool.on_worker_end = [&](unsigned) { fs::remove_all(node.BlocksDir()); };
+            if (getenv("C17_FORKTIME")) {
+                double t0 = vx::elapsed();
+                for (int i = 0; i < 50; i++) { pid_t g = fork(); if (g == 0) _exit(0); int st; waitpid(g, &st, 0); }
+                printf("50 fork+exit: %.3f s\n", vx::elapsed() - t0);
+                std::ifstream st("/proc/self/status"); std::string l; while (std::getline(st, l)) if (l.rfind("Vm", 0) == 0 || l.rfind("Threads", 0) == 0) printf("%s\n", l.c_str());
+                return 0;
+            }
+            if (getenv("C17_ONEJOB")) {
+                node.RepointBlocksDir(scratch / "one");
+                fp::Out o; o.fd = 1;
+                if (getenv("C17_ONEJOB_FORK")) { pid_t g = fork(); if (g != 0) { int st; waitpid(g, &st, 0); return 0; } }
+                if (getenv("C17_ONEJOB_FORK2")) { pid_t g = fork(); if (g != 0) { int st; waitpid(g, &st, 0); _exit(0); } }
+                double t0 = vx::elapsed();
+                b.ConnectJob(b.connect_jobs[0], o, scratch);
+                printf("one job took %.3f s\n", vx::elapsed() - t0);
+                o.send_counts(); o.flush();
+                return 0;
+            }
             if (getenv("C17_SKIP_CONNECT")) b.connect_jobs.clear();
             pool.run(
                 b.connect_jobs.size(), [&](uint64_t j, fp::Out& out) { b.ConnectJob(b.connect_jobs[j], out, scratch); },
